@@ -264,7 +264,7 @@ impl RefInd for Aroon {
 			Some(x) if x < 0 => Sig::A(Action::SELL_ALL),
 			_ => Sig::A(Action::None),
 		};
-		let (zl, zh) = (T::exact(self.zone), T::exact(1.0 - self.zone));
+		let (zl, zh) = (T::exact(self.zone), T::exact(crate::sut::vt(1.0 - self.zone)));
 		let step = |cnt: Option<i64>, cond: Tri| -> Option<i64> {
 			match cond {
 				Tri::False => Some(0),
